@@ -9,11 +9,13 @@ import (
 	"runtime/debug"
 
 	"github.com/cedar-policy/cedar-go/verif/c14"
+	"github.com/cedar-policy/cedar-go/verif/c19"
 	"github.com/cedar-policy/cedar-go/verif/core"
 )
 
 var registry = map[string]func() *core.Check{
 	"C14": c14.Check,
+	"C19": c19.Check,
 }
 
 func main() {
@@ -28,6 +30,11 @@ func main() {
 		os.Exit(2)
 	}
 	c := mk()
+	for _, a := range os.Args[2:] {
+		if a == "--race-pass" {
+			os.Exit(c19.RacePass())
+		}
+	}
 	for _, a := range os.Args[2:] {
 		if a == "--shard" {
 			core.ChildMain(c, os.Args[2:])
